@@ -19,6 +19,14 @@ family, a bare token list.  The harness
        `printStmts tree` = the PLY token stream;  `parseStmts (PLY token stream)` = PLY's tree (also on the
        malformed family: both reject or both build the same tree);  and the model's parse gives back the tree
        with the optional-word choices (the instance of `stmt_roundtrip` for this case).
+       The token stream sent to the model is the list of written tokens; run_impl checks on every case that the
+       real lexer produces exactly that list (D, signature layout-changes-tokens), so the two are the same
+       stream whenever no failure is reported.
+
+The parser tables are rebuilt from the grammar text of the workspace copy: setup() removes the editable
+install's import finder, which would otherwise hand PLY the generated tables of /repo (PLY with optimize=1
+accepts them without a signature check).  One OALParser is reused for the bulk of the cases; every 20th case
+goes through `oal.parse` itself.
 """
 import os
 
